@@ -166,7 +166,10 @@ Drop(e) ==
 
 \* ----------------------------------------------------------------- C03: foreign datagrams
 \* every packet kind, carrying any token other than the one endpoint e insists on
-ForeignTokens(x) == ({"W", "FF", "Z0"} \cup (IF V7 THEN {x.their} ELSE {"no"})) \ {Expected(x)}
+\* "near*": tokens derived from the agreed one (one bit flipped; two bytes changed so that a XOR fold of the
+\* byte differences cancels; two bytes swapped; bytes rotated) -- the harness computes the bytes
+NearTokens == {"near-bit", "near-xor", "near-swap", "near-rot"}
+ForeignTokens(x) == ({"W", "FF", "Z0"} \cup NearTokens \cup (IF V7 THEN {x.their} ELSE {"no"})) \ {Expected(x)}
 Forged(x) ==
   LET nextseq == Nxt(x.ack)
       chunk == [v |-> TRUE, seq |-> nextseq, rs |-> FALSE, id |-> 999, sz |-> 5] IN
